@@ -11,7 +11,7 @@ import sys
 from pathlib import Path
 
 ROOT = Path(__file__).resolve().parents[1]
-SKIP = ("patch_", "demo_", "notes_", "__pycache__")
+SKIP = ("patch_", "notes_", "__pycache__")
 
 
 def sh(cmd, cwd=None, timeout=1200):
@@ -73,7 +73,7 @@ def main():
         if (src / f"notes_{x}.md").exists():
             shutil.copy(src / f"notes_{x}.md", d / "NOTES.md")
         for extra in src.iterdir():          # helpers a demo may need (shared modules, stub tools, mock headers)
-            if extra.name.startswith(SKIP) or extra.name in ("observed_defects.md",) or extra.suffix in (".diff",):
+            if extra.name.startswith(SKIP) or __import__("re").fullmatch(r"demo_[a-z]\.py", extra.name) or extra.name in ("observed_defects.md",) or extra.suffix in (".diff",):
                 continue
             if extra.is_dir():
                 if extra.name.startswith(("out", "tmp", "build", "scratch", "work")):
